@@ -24,7 +24,8 @@ RULE = ('random designs with 2-7 sequential leaves wired to each other (register
         'counter feeding a memory address, UART / Vitis FSM blocks feeding registers, random Reg/Sequence/SynchronousMemory meshes, '
         'two clock domains feeding each other), 10-24 cycles of random inputs; each design is run under every permutation of the '
         'clockables lists and of the driver dict order (all when <= 120 quick / 5040 thorough, sampled beyond), with the E1 trace '
-        'specification evaluated on the recorded events, and under several splittings of the run into clk() calls; '
+        'specification evaluated on the recorded events, under runs in which the clockDriver of a wrapper/block is attached, replaced or removed between calls '
+        '(followed by getSimulator()) with the set of clocked leaves judged per cycle, and under several splittings of the run into clk() calls including clk(0); '
         'non-trivial = a design for which an immediate-write twin of Reg (harness class PutReg) DOES give order-dependent results '
         'under the same permutations, i.e. atomicity is what makes the real design order independent; distinct by plan hash')
 SHARDS = {'quick': 1, 'thorough': 16}
@@ -54,21 +55,82 @@ def apply_schedule(sim, sched):
         sim.clockDrivers = {byname[n]: sim.clockDrivers[byname[n]] for n in sched['drivers']}
 
 
-def simulate(plan, hist, sched=None, subst=None, calls=None, trace=False):
+def apply_driver_action(b, act):
+    """act = dict(op='attach'|'replace'|'remove', target=['scope', path] | ['block', id], enable=wire id | None, name=str):
+    assign / replace / remove the clockDriver of a wrapper or block of the live design (public attribute), then obtain the
+    simulator again with getSimulator(), which is the documented way to make structural changes known."""
+    py4hw = P()
+    kind, ref = act['target']
+    obj = b.boxes[ref] if kind == 'scope' else b.B[ref]
+    if act['op'] == 'remove':
+        obj.clockDriver = None
+    else:
+        en = b.W[act['enable']] if act.get('enable') else None
+        obj.clockDriver = py4hw.ClockDriver(act.get('name', 'ckX'), base=b.hw.clockDriver, enable=en)
+    with muted():
+        return b.hw.getSimulator()
+
+
+def simulate(plan, hist, sched=None, subst=None, calls=None, trace=False, domains=False):
     """returns dict(traj=[(wires, state) after each clk() call], total=[total_clks after each call], prepared=[len(Wire.prepared) ...],
-    events, rec).  calls: list of (n_cycles, input dict applied before the call); default one clk(1) per hist entry."""
+    events, rec).  calls: list of (n_cycles, input dict applied before the call[, driver action applied before the call]);
+    default one clk(1) per hist entry.
+    domains=True (needs trace): at the start of every cycle the set of sequential leaves that must be clocked is computed from
+    the design as it is NOW (py4hw.getObjectClockDriver(leaf); enable wire None or != 0) and compared at the end of the cycle
+    with the leaves whose clock() actually ran; mismatches are returned in out['domain_bad']."""
     Wire = P().Wire
     if calls is None:
         calls = [(1, h) for h in hist]
-    out = dict(traj=[], total=[], prepared=[], events=None, rec=None, error=None, prepared_at_construction=None)
+    out = dict(traj=[], total=[], prepared=[], events=None, rec=None, error=None, prepared_at_construction=None, domain_bad=[],
+               domain_cycles=0, gated_leaf_cycles=0, driver_changes=0)
 
     def body():
+        py4hw = P()
         b = netgen.build(plan, subst=subst)
         sim = b.simulator()
         out['prepared_at_construction'] = hooks.pending_count()
         apply_schedule(sim, sched)
         out['drivers'] = {d.name: len(ds.clockables) for d, ds in sim.clockDrivers.items()}
-        for n, vals in calls:
+        rec = out.get('rec')
+        if domains and rec is not None:
+            seq = [l for l in netgen.my_leaves(b.hw) if netgen.is_clk(l)]
+            cur = dict(expected=None, got=set(), changed=False)
+
+            def on_event(ev):
+                kind = ev[2]
+                if kind == 'cycle':
+                    exp = set()
+                    for l in seq:
+                        try:
+                            d = py4hw.getObjectClockDriver(l)
+                            if d.enable is None or d.enable.get() != 0:
+                                exp.add(id(l))
+                        except Exception:
+                            exp.add(id(l))
+                    cur['expected'] = exp
+                    cur['got'] = set()
+                elif kind == 'clock':
+                    cur['got'].add(id(ev[3]))
+                elif kind == 'cycle_end' and cur['expected'] is not None:
+                    out['domain_cycles'] += 1
+                    if len(cur['expected']) < len(seq):
+                        out['gated_leaf_cycles'] += 1
+                    if cur['got'] != cur['expected'] and len(out['domain_bad']) < 5:
+                        byid = {id(l): l for l in seq}
+                        extra = sorted(byid[i].getFullPath() for i in cur['got'] - cur['expected'] if i in byid)
+                        missing = sorted(byid[i].getFullPath() for i in cur['expected'] - cur['got'])
+                        out['domain_bad'].append(dict(cycle=ev[0], clocked_although_gated=extra[:4], not_clocked_although_enabled=missing[:4],
+                                                      after_driver_change=cur['changed']))
+                    cur['expected'] = None
+            rec.subscribers.append(on_event)
+        for call in calls:
+            n, vals = call[0], call[1]
+            if len(call) > 2 and call[2]:
+                sim = apply_driver_action(b, call[2])
+                out['driver_changes'] += 1
+                if domains and rec is not None:
+                    cur['changed'] = True
+                    seq[:] = [l for l in netgen.my_leaves(b.hw) if netgen.is_clk(l)]
             b.poke(vals)
             with muted():
                 sim.clk(n)
@@ -329,6 +391,8 @@ def check_design(run, plan, rnd, T, cap, stats, meta, trace_every=7):
         stats['order_insensitive_designs'] = stats.get('order_insensitive_designs', 0) + 1
     # Monitor 3
     check_splitting(run, plan, hist, rnd, ident, stats, meta)
+    # Monitor 4
+    check_domains(run, plan, hist, rnd, stats, meta)
     if stats['designs'] in (1, 5, 20, 60):
         run.sample(dict(shape=plan.get('shape'), blocks=[(b['id'], b.get('entry', b['kind'])) for b in plan['blocks']], drivers=drivers,
                         schedules_run=len(scheds), schedule_space=total, cycles=len(hist), order_sensitive_with_PutReg=sensitive))
@@ -349,6 +413,55 @@ def _after_call_checks(run, r, n_expected, case, stats):
                       what='total_clks is %d after %d requested cycles' % (r['total'][-1], n_expected))
 
 
+# --------------------------------------------------------------------------- Monitor 4: clock domains follow the design
+
+def driver_actions(plan, rnd, n):
+    """two or three clockDriver changes (attach / replace / remove) at call boundaries of an n-cycle run"""
+    ws = {w['id']: w['w'] for w in plan['wires']}
+    one = [i for i in plan['inputs'] if ws[i] == 1] or [w['id'] for w in plan['wires'] if w['w'] == 1 and not w.get('bidir')]
+    targets = [['scope', s['path']] for s in plan.get('scopes', [])]
+    targets += [['block', x['id']] for x in plan['blocks'] if x['seq']]
+    if not targets or n < 4:
+        return {}
+    acts = {}
+    times = sorted(rnd.sample(range(1, n), min(n - 1, rnd.randint(2, 3))))
+    tgt = rnd.choice(targets)
+    has = any(s['path'] == tgt[1] and s.get('clock') for s in plan.get('scopes', [])) if tgt[0] == 'scope' else False
+    for k, t in enumerate(times):
+        if not has:
+            op = 'attach'
+        else:
+            op = rnd.choice(['replace', 'remove', 'replace'])
+        en = rnd.choice(one) if one and rnd.random() < 0.85 else None
+        acts[t] = dict(op=op, target=tgt, enable=en, name='ckX%d' % k)
+        has = op != 'remove'
+        if rnd.random() < 0.3:
+            tgt = rnd.choice(targets)
+            has = any(s['path'] == tgt[1] and s.get('clock') for s in plan.get('scopes', [])) if tgt[0] == 'scope' else False
+    return acts
+
+
+def check_domains(run, plan, hist, rnd, stats, meta):
+    n = len(hist)
+    acts = driver_actions(plan, rnd, n)
+    calls = [(1, hist[t], acts.get(t)) for t in range(n)]
+    r = simulate(plan, hist, calls=calls, trace=True, domains=True)
+    case = dict(plan=plan, hist=hist, meta=meta, mode='domains', calls=[[c[0], c[1], c[2]] for c in calls])
+    if r['error']:
+        run.violation('design_does_not_simulate', dict(shape=plan.get('shape'), mode='domains'), case, observed=r['error'], what='run with clockDriver changes raises: %s' % r['error'])
+        return
+    stats['driver_changes'] = stats.get('driver_changes', 0) + r['driver_changes']
+    stats['domain_cycles_checked'] = stats.get('domain_cycles_checked', 0) + r['domain_cycles']
+    stats['cycles_with_a_gated_sequential_leaf'] = stats.get('cycles_with_a_gated_sequential_leaf', 0) + r['gated_leaf_cycles']
+    run.ev(r['domain_cycles'])
+    check_trace(run, r['events'], dict(case, mode='domains'), stats)
+    for bad in r['domain_bad'][:2]:
+        rel = 'clocked_although_gated' if bad['clocked_although_gated'] else 'not_clocked_although_enabled'
+        run.violation('clocked_set_differs', dict(relation=rel, after_driver_change=bad['after_driver_change']), dict(case, observed=bad),
+                      expected='exactly the sequential leaves whose clock driver is enabled', observed=bad,
+                      what='cycle %d: %s %s%s' % (bad['cycle'], rel, (bad[rel] or [''])[0], ' (after a clockDriver change + getSimulator())' if bad['after_driver_change'] else ''))
+
+
 # --------------------------------------------------------------------------- Monitor 3: splitting
 
 def compositions(n, bounds, rnd):
@@ -359,7 +472,14 @@ def compositions(n, bounds, rnd):
     for t in range(1, n):
         if rnd.random() < 0.3:
             rand.add(t)
-    return dict(single=single, coarse=coarse, random=sorted(rand))
+    # clk(0) is a legal call that advances nothing: zero-length calls are repeated boundaries
+    zeros = []
+    for t in coarse:
+        zeros += [t] * rnd.randint(1, 3)
+    rz = sorted(rand)
+    for _ in range(rnd.randint(1, 3)):
+        rz.append(rnd.choice(rz))
+    return dict(single=single, coarse=coarse, random=sorted(rz), zeros=zeros)
 
 
 def check_splitting(run, plan, hist, rnd, ident, stats, meta):
@@ -376,7 +496,8 @@ def check_splitting(run, plan, hist, rnd, ident, stats, meta):
     comps = compositions(n, bounds, rnd)
     res = {}
     for name, bl in comps.items():
-        calls = [(bl[k + 1] - bl[k], hist2[bl[k]]) for k in range(len(bl) - 1)]
+        calls = [(bl[k + 1] - bl[k], hist2[min(bl[k], n - 1)]) for k in range(len(bl) - 1)]
+        stats['zero_length_calls'] = stats.get('zero_length_calls', 0) + sum(1 for c in calls if c[0] == 0)
         r = simulate(plan, hist2, calls=calls)
         case = dict(plan=plan, hist=hist2, meta=meta, mode='split', bounds=bounds, calls=[[c[0], c[1]] for c in calls], composition=name)
         stats['split_runs'] = stats.get('split_runs', 0) + 1
@@ -386,10 +507,13 @@ def check_splitting(run, plan, hist, rnd, ident, stats, meta):
         _after_call_checks(run, r, n, case, stats)
         at = {}
         for k in range(len(bl) - 1):
-            at[bl[k + 1]] = r['traj'][k]
+            if bl[k + 1] > bl[k]:
+                # state reached by a call that advanced time; a zero-length call at a shared boundary runs after the NEW
+                # inputs were poked, which the single-cycle reference has not seen yet at that boundary
+                at[bl[k + 1]] = r['traj'][k]
         res[name] = (at, r['total'][-1] if r['total'] else None, case)
     ref = res['single']
-    for name in ('coarse', 'random'):
+    for name in ('coarse', 'random', 'zeros'):
         at, total, case = res[name]
         for t in bounds[1:]:
             run.ev()
@@ -442,7 +566,8 @@ def post_merge(run, tier, seed):
     c = run.counters
     for k, why in (('cycles_judged', 'trace monitor judged no clock cycle'), ('settle_events', 'no settle event was observed'),
                    ('prepare_events', 'no prepare event was observed'), ('edges_compared', 'schedule monitor compared no edge'),
-                   ('split_points_compared', 'splitting monitor compared nothing'), ('multi_driver_designs', 'no design with two clock drivers was run')):
+                   ('split_points_compared', 'splitting monitor compared nothing'), ('zero_length_calls', 'no clk(0) call in the splittings'),
+                   ('driver_changes', 'no clockDriver was changed on a live design'), ('cycles_with_a_gated_sequential_leaf', 'no cycle with a gated-off sequential leaf was judged'), ('multi_driver_designs', 'no design with two clock drivers was run')):
         if not c.get(k):
             run.inconclusive.append(why)
     if c.get('designs_skipped_time'):
@@ -456,7 +581,17 @@ def replay(run, case):
     stats = {}
     mode = c.get('mode', 'schedule')
     n0 = len(run.violations)
-    if mode == 'split':
+    if mode == 'domains':
+        calls = [(x[0], x[1], x[2]) for x in c['calls']]
+        r = simulate(plan, hist, calls=calls, trace=True, domains=True)
+        check_trace(run, r['events'] or [], c, stats)
+        for bad in r['domain_bad'][:2]:
+            rel = 'clocked_although_gated' if bad['clocked_although_gated'] else 'not_clocked_although_enabled'
+            run.violation('clocked_set_differs', dict(relation=rel, after_driver_change=bad['after_driver_change']), c, observed=bad,
+                          what='cycle %d: %s %s' % (bad['cycle'], rel, (bad[rel] or [''])[0]))
+        if r['error']:
+            run.violation('design_does_not_simulate', dict(mode='domains'), c, observed=r['error'], what=r['error'])
+    elif mode == 'split':
         calls = [(x[0], x[1]) for x in c['calls']]
         n = sum(x[0] for x in calls)
         single = simulate(plan, hist, calls=[(1, hist[t]) for t in range(n)])
